@@ -309,6 +309,7 @@ class Interp:
         self.call_type = None
         self.let_type = None
         self.lenient = False
+        self.resolve_into = False
         self.events = []
         self.opaque = {}
         self.opaque_seen = set()
@@ -457,6 +458,9 @@ class Interp:
         if isinstance(f, tuple) and f and f[0] in ("extern", "fnref"):
             nm = f[1]
             tail2 = "::".join(nm.split("::")[-2:])
+            if tail2 in ("Arc::new", "Box::new", "Rc::new", "String::from", "Arc::from") and len(args) == 1 and tail2 not in self.fn_models:
+                # smart-pointer / owned-string constructors used as function values: `opt.map(Arc::new)`
+                return args[0]
             if tail2 in self.fn_models:
                 return self.fn_models[tail2](self, list(args))
             if nm.split("::")[-1] in self.fn_models:
@@ -1410,6 +1414,15 @@ class Interp:
             return self.call_method(ty, name, recv, args)
         if (None, name) in self.models:
             return self.models[(None, name)](self, recv, args)
+        if name == "into" and self.resolve_into and isinstance(recv, Struct):
+            # value.into(): the loaded `impl From<S> for T` with S = the value's type (the target named by the let / turbofish when several exist)
+            cands = [(t, fn) for (t, m), lst in self.prog.trait_methods.items() if m == "from" for tr, fn in lst
+                     if tr.replace(" ", "") in ("From<%s>" % recv.ty, "From<&%s>" % recv.ty)]
+            if len(cands) > 1 and self.call_type:
+                want = str(self.call_type).split("<")[0].split("::")[-1].strip()
+                cands = [c for c in cands if c[0] == want] or cands
+            if len(cands) == 1:
+                return self._invoke(cands[0][1], [recv], self_ty=cands[0][0])
         if isinstance(recv, Uninterp):
             if self.lenient:
                 return self.mk_opaque("." + name, [recv] + list(args))
@@ -1553,6 +1566,9 @@ class Interp:
             return z3.InRe(symb, ci_literal(conc))
         if name in ("trim", "to_lowercase", "to_uppercase", "to_ascii_lowercase") and isinstance(recv, str):
             return getattr(recv, {"trim": "strip", "to_lowercase": "lower", "to_uppercase": "upper", "to_ascii_lowercase": "lower"}[name])()
+        if name == "split" and isinstance(recv, str) and args and isinstance(args[0], str) and args[0]:
+            # an iterator over the pieces: `.next()` pops from the front (list_method)
+            return recv.split(args[0])
         if name == "as_bytes":
             if isinstance(recv, str):
                 return list(recv.encode())
